@@ -52,14 +52,20 @@ def isCardTok (t : Token UInt32) : Bool := match t.kind with | .singleCard _ => 
 
 /-- number of legal deals at the first three positions of flop 2h 2d 2c with this single range (any entry order) -/
 def evalProbe (contents : List (Combo × UInt32)) : String :=
-  let ev : Evaluator UInt32 := { board := [some ⟨12, 1⟩, some ⟨12, 2⟩, some ⟨12, 3⟩, none, none], ranges := [contents],
-                                 turnFrom := 0, riverFrom := 1, turnTo := 0, riverTo := 4 }
+  -- two fixed ranges sharing the ace of spades (AsKs | AsQs:0.5, 7d6d) before the range under test
+  let f1 : List (Combo × UInt32) := [(mkPair ⟨0, 0⟩ ⟨1, 0⟩, 0x3F800000)]
+  let f2 : List (Combo × UInt32) := [(mkPair ⟨0, 0⟩ ⟨2, 0⟩, 0x3F000000), (mkPair ⟨7, 2⟩ ⟨8, 2⟩, 0x3F800000)]
+  let ev : Evaluator UInt32 := { board := [some ⟨12, 1⟩, some ⟨12, 2⟩, some ⟨12, 3⟩, none, none], ranges := [f1, f2, contents],
+                                 turnFrom := 40, riverFrom := 41, turnTo := 40, riverTo := 44 }
   match ev.intoIter with
   | .ok s =>
     match drainFuel f32Ops 100000000 s [] with
     | .ok (sds, _) =>
       let badp := sds.countP fun sd => !inUnit sd.prob
-      s!"ok n={sds.length} badprob={badp}"
+      let dup := sds.countP fun sd =>
+        let cs := sd.board.map (·.code) ++ sd.players.flatMap fun p => [p.hole.fst.code, p.hole.snd.code]
+        cs.eraseDups.length != cs.length
+      s!"ok n={sds.length} badprob={badp} dup={dup}"
     | _ => "panic"
   | _ => "panic"
 
@@ -184,8 +190,8 @@ def specParseRange (a : List String) : Option String :=
     -- well-formed token list: later tokens overwrite earlier ones
     let final : List (Nat × Nat) := (sets.filterMap id).foldl (fun m set =>
       set.foldl (fun m (c, w) => (c, w) :: m.filter (fun e => e.1 != c)) m) []
-    some s!"all:[C09]nopanic;;[C05]has: n={final.length} map={fmtEntries final} ;;[C10]has: bad=0 ;;[C06]has: reparse=1;;[C10]has:badprob=0"
-  else some "all:[C09]nopanic;;[C10]has: bad=0 ;;[C06]has: reparse=1;;[C10]has:badprob=0"
+    some s!"all:[C09]nopanic;;[C05]has: n={final.length} map={fmtEntries final} ;;[C10]has: bad=0 ;;[C06]has: reparse=1;;[C10]has:badprob=0 dup=0"
+  else some "all:[C09]nopanic;;[C10]has: bad=0 ;;[C06]has: reparse=1;;[C10]has:badprob=0 dup=0"
 
 def specContents (es : List (Combo × UInt32)) : Spec.Contents UInt32 :=
   es.foldl (fun m e => ((e.1.fst.code, e.1.snd.code), e.2) :: m.filter (fun x => x.1 != (e.1.fst.code, e.1.snd.code))) []
